@@ -207,3 +207,31 @@ package fdo
 //@ func fdo.TO2Server.replacementCredential
 //@   nopaths
 //@   modifies nothing
+
+// ---- responders: every request is answered by the next message type or by an
+// error message (255), never by anything else (C08, C10) ----------------------------------
+//@ func fdo.DIServer.Respond
+//@   props C08 C10
+//@   sweep bounds,panic,make,nilmem
+//@   ensures @answer respType == 255 || ((msgType == 10 || msgType == 12) && respType == msgType + 1)
+//@   ensures @nonnil respType == 255 ==> resp != nil
+//@ func fdo.TO0Server.Respond
+//@   props C08 C10
+//@   sweep bounds,panic,make,nilmem
+//@   ensures @answer respType == 255 || ((msgType == 20 || msgType == 22) && respType == msgType + 1)
+//@   ensures @nonnil respType == 255 ==> resp != nil
+//@ func fdo.TO1Server.Respond
+//@   props C08 C10
+//@   sweep bounds,panic,make,nilmem
+//@   ensures @answer respType == 255 || ((msgType == 30 || msgType == 32) && respType == msgType + 1)
+//@   ensures @nonnil respType == 255 ==> resp != nil
+//@ func fdo.TO2Server.Respond
+//@   props C08 C10
+//@   sweep bounds,panic,make,nilmem
+//@   ensures @answer respType == 255 || ((msgType == 60 || msgType == 62 || msgType == 64 || msgType == 66 || msgType == 68 || msgType == 70) && respType == msgType + 1)
+//@   ensures @nonnil respType == 255 ==> resp != nil
+
+//@ func fdo.errMsgFromContext
+//@   nopaths
+//@   pure
+//@   ensures result != nil
